@@ -37,6 +37,16 @@ def StrictMono : α × α → List (α × α) → Prop
   | _, [] => True
   | p, k :: ks => p.1 < k.1 ∧ p.2 < k.2 ∧ StrictMono k ks
 
+/-- abscissae strictly increasing -/
+def StrictAbs : α × α → List (α × α) → Prop
+  | _, [] => True
+  | p, k :: ks => p.1 < k.1 ∧ StrictAbs k ks
+
+theorem StrictMono.strictAbs {p : α × α} {ks : List (α × α)} (h : StrictMono p ks) : StrictAbs p ks := by
+  induction ks generalizing p with
+  | nil => trivial
+  | cons k ks ih => exact ⟨h.1, ih h.2.2⟩
+
 theorem StrictMono.mono {p : α × α} {ks : List (α × α)} (h : StrictMono p ks) : Mono p ks := by
   induction ks generalizing p with
   | nil => trivial
@@ -194,7 +204,12 @@ theorem plLT_ge_last {p : α × α} {ks : List (α × α)} (hm : Mono p ks) {x :
     simp only [plLT, not_lt.2 hk, if_false, lastOrd]
     exact ih hm.2.2 hx
 
-theorem plLE_last {p : α × α} {ks : List (α × α)} (hm : StrictMono p ks) :
+theorem StrictAbs.le_lastAbs {q : α × α} {l : List (α × α)} (h : StrictAbs q l) : q.1 ≤ lastAbs q l := by
+  induction l generalizing q with
+  | nil => exact le_rfl
+  | cons a l ih => exact le_trans h.1.le (ih h.2)
+
+theorem plLE_last {p : α × α} {ks : List (α × α)} (hm : StrictAbs p ks) :
     plLE p ks (lastAbs p ks) = lastOrd p ks := by
   induction ks generalizing p with
   | nil => rfl
@@ -203,20 +218,29 @@ theorem plLE_last {p : α × α} {ks : List (α × α)} (hm : StrictMono p ks) :
     cases ks with
     | nil => simp only [lastAbs, le_refl, if_true, lastOrd]; exact seg_right hm.1
     | cons k' ks' =>
-      have : k.1 < lastAbs k (k' :: ks') := by
-        have : ∀ (q : α × α) (l : List (α × α)), StrictMono q l → q.1 ≤ lastAbs q l := by
-          intro q l
-          induction l generalizing q with
-          | nil => intro _; exact le_rfl
-          | cons a l ih => intro h; exact le_trans h.1.le (ih a h.2.2)
-        exact lt_of_lt_of_le hm.2.2.1 (this k' ks' hm.2.2.2.2)
+      have : k.1 < lastAbs k (k' :: ks') := lt_of_lt_of_le hm.2.1 hm.2.2.le_lastAbs
       simp only [not_le.2 this, if_false]
-      exact ih hm.2.2
+      exact ih hm.2
 
 /-! ### inverse -/
 
 /-- swap abscissae and ordinates -/
 def swap (ks : List (α × α)) : List (α × α) := ks.map Prod.swap
+
+theorem mono_swap {p : α × α} {ks : List (α × α)} (h : Mono p ks) : Mono p.swap (swap ks) := by
+  induction ks generalizing p with
+  | nil => trivial
+  | cons k ks ih => exact ⟨h.2.1, h.1, ih h.2.2⟩
+
+theorem lastOrd_swap (p : α × α) (ks : List (α × α)) : lastOrd p.swap (swap ks) = lastAbs p ks := by
+  induction ks generalizing p with
+  | nil => rfl
+  | cons k ks ih => exact ih k
+
+theorem lastAbs_swap (p : α × α) (ks : List (α × α)) : lastAbs p.swap (swap ks) = lastOrd p ks := by
+  induction ks generalizing p with
+  | nil => rfl
+  | cons k ks ih => exact ih k
 
 theorem seg_inv {p k : α × α} (ha : p.1 < k.1) (hb : p.2 < k.2) (x : α) :
     seg p.swap k.swap (seg p k x) = x := by
